@@ -1,4 +1,4 @@
-From Pybtex Require Import Base.Prelude Base.PyChar Base.PyStr Model.BibtexStr Model.Wrap Model.Bst Spec.BstTyping.
+From Pybtex Require Import Base.Prelude Base.PyChar Base.PyStr Model.BibtexStr Model.Wrap Model.Names Model.NameFormat Model.Bst Model.BstReal Spec.BstTyping.
 Require Extraction.
 Require Import ExtrOcamlBasic.
 
@@ -191,7 +191,7 @@ Definition dispatch (fn : Z) (a : sexp) : sexp :=
     let cmds := d_list d_command (d_nth a 0) in
     let cites := d_list d_str (d_nth a 1) in
     let reads := d_list d_read (d_nth a 2) in
-    let fmt := fmt_of (d_fmt (d_nth a 3)) in
+    let fmt := real_fmt in      (* C11's model of names.format_name; slot 3 of the case is unused *)
     let cw := cw_of (d_cw (d_nth a 4)) in
     let fuel := d_nat (d_nth a 5) in
     run_escalating fmt cw 3 fuel cmds (initial_state cites reads)
